@@ -34,6 +34,14 @@ type DecisionOpts struct {
 	// ResolvePhis renders every phi by the value of the edge taken on the current path
 	// (use for loop-free functions whose result is a merge of alternatives).
 	ResolvePhis bool
+	// Event records side-effecting instructions passed on the way (they do not end the path);
+	// they are prefixed to the outcome as "ev1; ev2 => outcome".
+	Event func(in ssa.Instruction, c *Canon) (string, bool)
+	// Iteration mode: start at the header block of a loop and describe ONE iteration as a
+	// transition: boolean phis of the header are free atoms named state0, state1, ...; the path
+	// ends when a back edge returns to the header (outcome "next(state0=..,state1=..)"), when the
+	// loop is left ("exit") or at an Outcome instruction.
+	IterateAt *ssa.BasicBlock
 }
 
 // EnumerateDecisions walks the CFG of fn. Every If contributes a literal over a canonical
@@ -134,12 +142,14 @@ func EnumerateDecisions(p *Program, fn *ssa.Function, opts DecisionOpts) (paths 
 		phiEdge  map[*ssa.Phi]ssa.Value
 		backUsed map[edge]bool
 		eqTrue   map[string]string
+		events   []string
 	}
 	clone := func(s *state) *state {
 		n := &state{assign: map[string]bool{}, visits: map[*ssa.BasicBlock]int{}, phiEdge: map[*ssa.Phi]ssa.Value{}, backUsed: map[edge]bool{}, eqTrue: map[string]string{}}
 		for k, v := range s.eqTrue {
 			n.eqTrue[k] = v
 		}
+		n.events = append([]string{}, s.events...)
 		for k, v := range s.assign {
 			n.assign[k] = v
 		}
@@ -155,6 +165,26 @@ func EnumerateDecisions(p *Program, fn *ssa.Function, opts DecisionOpts) (paths 
 		}
 		return n
 	}
+	phiName := map[*ssa.Phi]string{}
+	var statePhis []*ssa.Phi
+	if opts.IterateAt != nil {
+		for _, in := range opts.IterateAt.Instrs {
+			ph, ok := in.(*ssa.Phi)
+			if !ok {
+				break
+			}
+			if isBoolType(ph) {
+				phiName[ph] = fmt.Sprintf("state%d", len(statePhis))
+				statePhis = append(statePhis, ph)
+			}
+		}
+	}
+	emit := func(st *state, outcome, pos string) {
+		if len(st.events) > 0 {
+			outcome = strings.Join(st.events, "; ") + " => " + outcome
+		}
+		paths = append(paths, DecisionPath{Lits: append([]Lit{}, st.lits...), Outcome: outcome, Pos: pos})
+	}
 	var overflow bool
 	var walk func(b, from *ssa.BasicBlock, st *state)
 	walk = func(b, from *ssa.BasicBlock, st *state) {
@@ -163,6 +193,28 @@ func EnumerateDecisions(p *Program, fn *ssa.Function, opts DecisionOpts) (paths 
 		}
 		if len(paths) >= opts.MaxPaths {
 			overflow = true
+			return
+		}
+		if opts.IterateAt != nil && b == opts.IterateAt && from != nil {
+			// one iteration completed: report the next state
+			idx := -1
+			for i, pr := range b.Preds {
+				if pr == from {
+					idx = i
+				}
+			}
+			cn := NewCanon(p)
+			cn.PhiEdge = st.phiEdge
+			cn.PhiName = phiName
+			var parts []string
+			for i, ph := range statePhis {
+				v := "?"
+				if idx >= 0 {
+					v = cn.Of(ph.Edges[idx])
+				}
+				parts = append(parts, fmt.Sprintf("state%d=%s", i, v))
+			}
+			emit(st, "next("+strings.Join(parts, ",")+")", p.Pos(from.Instrs[len(from.Instrs)-1].Pos()))
 			return
 		}
 		st.visits[b]++
@@ -187,7 +239,7 @@ func EnumerateDecisions(p *Program, fn *ssa.Function, opts DecisionOpts) (paths 
 					// only constants and booleans are resolved path-sensitively; everything else
 					// keeps its φname so that loop-carried variables stay iteration-independent
 					e := ph.Edges[idx]
-					if isBoolType(ph) || opts.ResolvePhis {
+					if _, named := phiName[ph]; !named && (isBoolType(ph) || opts.ResolvePhis) {
 						st.phiEdge[ph] = e
 					}
 				}
@@ -195,9 +247,15 @@ func EnumerateDecisions(p *Program, fn *ssa.Function, opts DecisionOpts) (paths 
 		}
 		canon := NewCanon(p)
 		canon.PhiEdge = st.phiEdge
+		canon.PhiName = phiName
 		for _, in := range b.Instrs {
+			if opts.Event != nil {
+				if ev, ok := opts.Event(in, canon); ok {
+					st.events = append(st.events, ev)
+				}
+			}
 			if out, ok := opts.Outcome(in, canon); ok {
-				paths = append(paths, DecisionPath{Lits: append([]Lit{}, st.lits...), Outcome: out, Pos: p.Pos(in.Pos())})
+				emit(st, out, p.Pos(in.Pos()))
 				return
 			}
 		}
@@ -209,8 +267,10 @@ func EnumerateDecisions(p *Program, fn *ssa.Function, opts DecisionOpts) (paths 
 			// constant condition after phi resolution?
 			cv := StripConv(last.Cond)
 			if ph, ok := cv.(*ssa.Phi); ok {
-				if e, ok := st.phiEdge[ph]; ok {
-					cv = e
+				if _, named := phiName[ph]; !named {
+					if e, ok := st.phiEdge[ph]; ok {
+						cv = e
+					}
 				}
 			}
 			if bv, ok := ConstBool(cv); ok {
@@ -223,6 +283,16 @@ func EnumerateDecisions(p *Program, fn *ssa.Function, opts DecisionOpts) (paths 
 			}
 			atom, valWhenTrue := canon.CondAtom(last.Cond)
 			body, lc := isLoopControl(b)
+			if lc && opts.IterateAt != nil && loopHeaderOf(b) == opts.IterateAt {
+				// the analysed loop: entering the body is unconditional in iteration mode,
+				// leaving it ends the path
+				for k, s2 := range b.Succs {
+					if body[s2] {
+						walk(b.Succs[k], b, clone(st))
+					}
+				}
+				return
+			}
 			if lc {
 				atom = fmt.Sprintf("loop%d(%s)", loopNo[loopHeaderOf(b)], atom)
 				if st.visits[b] >= 2 {
@@ -292,15 +362,19 @@ func EnumerateDecisions(p *Program, fn *ssa.Function, opts DecisionOpts) (paths 
 			walk(s, b, st)
 		case *ssa.Return:
 			if out, ok := opts.Outcome(last, canon); ok {
-				paths = append(paths, DecisionPath{Lits: append([]Lit{}, st.lits...), Outcome: out, Pos: p.Pos(last.Pos())})
+				emit(st, out, p.Pos(last.Pos()))
 			} else {
-				paths = append(paths, DecisionPath{Lits: append([]Lit{}, st.lits...), Outcome: "return", Pos: p.Pos(last.Pos())})
+				emit(st, "return", p.Pos(last.Pos()))
 			}
 		case *ssa.Panic:
-			paths = append(paths, DecisionPath{Lits: append([]Lit{}, st.lits...), Outcome: "panic", Pos: p.Pos(last.Pos())})
+			emit(st, "panic", p.Pos(last.Pos()))
 		}
 	}
-	walk(fn.Blocks[0], nil, &state{assign: map[string]bool{}, visits: map[*ssa.BasicBlock]int{}, phiEdge: map[*ssa.Phi]ssa.Value{}, backUsed: map[edge]bool{}, eqTrue: map[string]string{}})
+	startBlock := fn.Blocks[0]
+	if opts.IterateAt != nil {
+		startBlock = opts.IterateAt
+	}
+	walk(startBlock, nil, &state{assign: map[string]bool{}, visits: map[*ssa.BasicBlock]int{}, phiEdge: map[*ssa.Phi]ssa.Value{}, backUsed: map[edge]bool{}, eqTrue: map[string]string{}})
 	if overflow {
 		return paths, atoms, fmt.Errorf("more than %d decision paths in %s", opts.MaxPaths, fn)
 	}
